@@ -86,16 +86,6 @@ func (v *Vue) evaluate(ctx VueContext, nodes []*html.Node, depth int) ([]*html.N
 				continue
 			}
 
-			// Handle slot elements
-			if tag == "slot" {
-				slotResult, err := v.evalSlot(ctx, node, ctx.SlotScope)
-				if err != nil {
-					return nil, err
-				}
-				result = append(result, slotResult...)
-				continue
-			}
-
 			// Handle v-if chains (v-if, v-else-if, v-else) early, even for templates
 			// This ensures v-if/v-else-if/v-else are processed before template attributes
 			if helpers.HasAttr(node, "v-if") {
@@ -112,6 +102,17 @@ func (v *Vue) evaluate(ctx VueContext, nodes []*html.Node, depth int) ([]*html.N
 			// Skip v-else-if and v-else if they appear without v-if
 			// (they should be handled as part of a chain)
 			if helpers.HasAttr(node, "v-else-if") || helpers.HasAttr(node, "v-else") {
+				continue
+			}
+
+			// Handle slot elements (after the conditional chain: <slot v-if="..."> is a chain
+			// member like any other element and is filled only when its branch is chosen)
+			if tag == "slot" {
+				slotResult, err := v.evalSlot(ctx, node, ctx.SlotScope)
+				if err != nil {
+					return nil, err
+				}
+				result = append(result, slotResult...)
 				continue
 			}
 
